@@ -128,13 +128,17 @@ def work_exact(arg):
 
 
 def work_noisy(arg):
-    name, k, scale = arg
+    name, k, scale = arg[:3]
+    origin = len(arg) > 3 and arg[3]
     out = {'ev': 0, 'nt': 0, 'viol': [], 'noreturn': 0}
     p, n = noisy_sets(scale)[k]
+    if origin:      # the measured (0, 0) starting point in the data
+        p, n = numpy.concatenate([[0.0], p]), numpy.concatenate([[0.0], n])
     kw = {}
-    if name == 'Virial':
-        kw['optimization_params'] = {'add_point': True}
     o = core.call(fit, name, p, n, **kw)
+    if name == 'Virial' and not o.ok:
+        kw['optimization_params'] = {'add_point': True}
+        o = core.call(fit, name, p, n, **kw)
     out['ev'] += 1
     if not o.ok:
         out['noreturn'] += 1
@@ -142,7 +146,7 @@ def work_noisy(arg):
             out['nonpg'] = o.brief()
         return out
     iso = o.value
-    if name == 'Virial':
+    if name == 'Virial' and kw:
         return out       # with an added point the data of the fit are not the user's: identity not defined
     r = core.call(recomputed_rmse, iso, p, n)
     out['nt'] += 1
@@ -150,7 +154,7 @@ def work_noisy(arg):
         return out
     if abs(r.value - iso.model.rmse) > 1e-9 * max(r.value, 1e-300):
         out['viol'].append(core.make_violation({'check': 'rmse-identity', 'model': name},
-                                               f'{name} on noisy data set {k}: reported rmse {iso.model.rmse:.12g}, recomputed {r.value:.12g}', {'model': name, 'data_set': k},
+                                               f'{name} on noisy data set {k}{" with the (0, 0) point" if origin else ""}: reported rmse {iso.model.rmse:.12g}, recomputed {r.value:.12g}', {'model': name, 'data_set': k, 'origin': bool(origin)},
                                                r.value, iso.model.rmse))
     for key, (lo, hi) in iso.model.param_bounds.items():
         if not (lo - 1e-12 <= iso.model.params[key] <= hi + 1e-12):
@@ -204,6 +208,29 @@ def check_misc(ctx):
                     ctx.violate(core.make_violation({'check': 'user-bounds-not-respected', 'bounds': tag}, f'Langmuir with user bounds {bounds}: fitted {k}={o.value.model.params[k]}', {'bounds': bounds}))
             if tag == 'around' and core.relerr(o.value.model.loading(p), n) > 1e-6:
                 ctx.violate(core.make_violation({'check': 'exact-data-not-reproduced', 'model': 'Langmuir', 'with': 'user bounds'}, f'fit with bounds around the generator does not reproduce the data', {'bounds': bounds}))
+    # the bounds are a mapping: the order in which the user writes the keys cannot matter (active bounds, every key order)
+    for mname, gen, bnd in (('Langmuir', {'K': 6.0, 'n_m': 4.0}, {'K': (0.5, 100.0), 'n_m': (0.2, 3.2)}),
+                            ('Toth', {'n_m': 5.0, 'K': 12.0, 't': 0.7}, {'n_m': (1.0, 4.0), 'K': (0.5, 200.0), 't': (0.3, 1.5)}),
+                            ('DSLangmuir', {'n_m1': 2.0, 'K1': 20.0, 'n_m2': 3.0, 'K2': 0.8}, {'n_m1': (0.1, 1.5), 'K1': (1.0, 300.0), 'n_m2': (0.1, 9.0), 'K2': (0.01, 5.0)})):
+        nn = ml.ref_loading(mname, gen, p)
+        results = {}
+        for order in itertools.permutations(bnd):
+            ob = core.call(fit, mname, p, nn, param_bounds={kk: bnd[kk] for kk in order})
+            ev += 1
+            if not ob.ok:
+                results[order] = None
+                continue
+            nt += 1
+            results[order] = dict(ob.value.model.params)
+            for kk, (lo, hi) in bnd.items():
+                if not (lo - 1e-9 <= ob.value.model.params[kk] <= hi + 1e-9):
+                    ctx.violate(core.make_violation({'check': 'user-bounds-not-respected', 'bounds': 'key order', 'model': mname},
+                                                    f'{mname} with user bounds written in the order {list(order)} ({bnd}): fitted {kk}={ob.value.model.params[kk]} outside {lo, hi}',
+                                                    {'bounds': bnd, 'order': list(order)}, (lo, hi), ob.value.model.params[kk]))
+        conv = [r for r in results.values() if r is not None]
+        if conv and (len(conv) != len(results) or any(core.relerr([r[kk] for kk in bnd], [conv[0][kk] for kk in bnd]) > 1e-6 for r in conv)):
+            ctx.violate(core.make_violation({'check': 'bounds-key-order-matters', 'model': mname},
+                                            f'{mname}: the fit depends on the order of the keys of param_bounds: {core.short(results, 300)}', {'bounds': bnd}))
     o = core.call(fit, 'Toth', p, ml.ref_loading('Toth', {'n_m': 5.0, 'K': 12.0, 't': 0.7}, p), param_guess={'n_m': 4.0, 'K': 9.0, 't': 1.0})
     ev += 1
     if o.ok:
@@ -315,7 +342,7 @@ def run(ctx):
         nr += r['noreturn']
         ctx.track('exact_fit_residual', r['worst'], 1e-5)
     from pygaps.modelling import _GUESS_MODELS, _MODELS
-    jobs = [(name, k, ctx.scale) for name in _MODELS for k in range(4)]
+    jobs = [(name, k, ctx.scale) for name in _MODELS for k in range(4)] + [(name, k, ctx.scale, True) for name in _MODELS for k in range(4)]
     res = core.pmap(work_noisy, jobs, chunk=2)
     nonpg = []
     for r in res:
